@@ -1,6 +1,8 @@
 //! qxv - conformance harness binding the TLA+ specification in /verif/spec to
 //! the real quick-xml code.  Sub-commands are invoked by /verif/check.
+mod attrs;
 mod env;
+mod esc;
 mod gen;
 mod obs;
 mod record_reader;
@@ -66,6 +68,32 @@ fn main() {
             };
             let s = record_reader::run(&o);
             println!("SUMMARY {}", serde_json::to_string(&s).unwrap());
+        }
+        "attrs-replay" => {
+            let s = attrs::replay(&get("file", ""), &get("prop", "C11"), &get("out-dir", "evidence/replay"));
+            println!("SUMMARY {}", serde_json::to_string(&s).unwrap());
+        }
+        "attrs-record" => {
+            let s = attrs::record(&get("out", "work/attrs.ndjson"), seed, get("n", "1000").parse().unwrap());
+            println!("SUMMARY {}", serde_json::to_string(&s).unwrap());
+        }
+        "attrs-rerun" => {
+            let still = attrs::rerun(&get("file", ""));
+            println!("{}", if still { "STILL-FAILS" } else { "PASSES-NOW" });
+            std::process::exit(if still { 1 } else { 0 });
+        }
+        "escape-replay" => {
+            let s = esc::replay(&get("file", ""), &get("prop", "C10"), &get("out-dir", "evidence/replay"));
+            println!("SUMMARY {}", serde_json::to_string(&s).unwrap());
+        }
+        "escape-record" => {
+            let s = esc::record(&get("out", "work/esc.ndjson"), seed, get("n", "1000").parse().unwrap(), get("sweep", "1") == "1");
+            println!("SUMMARY {}", serde_json::to_string(&s).unwrap());
+        }
+        "escape-rerun" => {
+            let still = esc::rerun(&get("file", ""));
+            println!("{}", if still { "STILL-FAILS" } else { "PASSES-NOW" });
+            std::process::exit(if still { 1 } else { 0 });
         }
         "reader-rerun" => {
             let still = replay_reader::rerun(&get("file", ""));
